@@ -296,3 +296,8 @@ LEVEL_TEXT = ("Decided by SMT over the real MIR of verify_block: the tip changes
 LEVEL_NOTE = "Partial claim (decision step of verify_block). Orphans, ordering, threads, DB transaction: outside."
 TECHNIQUE = "symbolic execution of rustc MIR (dataflow mode, logged environment calls) -> integer-theory SMT (cvc5 + z3)"
 DESIGN_REF = "DESIGN.md section 4 (C01)"
+
+# ---- extended claim (session 3)
+BOUNDS = dict(BOUNDS, m2="need_clean: all u64 epochs (no bound)", m3="find_fork: five concrete fork shapes (new tip 2 above .. 2 below the current tip, fork depth 2), every split of already-verified / unverified blocks on the new branch")
+LEVEL_TEXT = LEVEL_TEXT + " Also decided: the orphan retention horizon (need_clean: a held group expires exactly when its first block's epoch + EXPIRED_EPOCH is strictly below the tip epoch) and find_fork on small concrete fork shapes (attached/detached blocks in ascending order, dirty exts paired block by block with the unverified tail)."
+LEVEL_NOTE = "Partial claim (decision step of verify_block, orphan expiry predicate, find_fork on bounded shapes). Orphan broker, ordering, threads, DB transaction: outside."
